@@ -122,6 +122,7 @@ def gen_program(ctx, fd, n_chunks_rows, max_ops, allow_replace=True, allow_write
     fmt = T.FORMATS[fd["format"]]
     lens = list(n_chunks_rows)          # model length of every variable
     ops = []
+    last_set = {}                       # variable -> field of its latest attribute assignment
     repl_fields = [(f, k) for f, k in fmt.fields if k in REPLACEABLE]
     if fmt.layout == "fastq":
         # a replaced sequence of another length would make the record itself inconsistent with its quality line
@@ -156,6 +157,13 @@ def gen_program(ctx, fd, n_chunks_rows, max_ops, allow_replace=True, allow_write
                 ops.append({"op": "len", "src": src})
                 continue
             fname, kind = cands[tape.draw(len(cands), "op.field")]
+            if src in last_set and tape.boolean("op.same_field_again", 1, 2):
+                # the same field of the same variable assigned a second time (after whatever was done in between;
+                # half of the time the whole table is materialised in between)
+                fname, kind = last_set[src]
+                if tape.boolean("op.materialise_between", 1, 2):
+                    ops.append({"op": "tolist", "src": src})
+            last_set[src] = (fname, kind)
             texts = [gen_replacement_text(tape, kind, "rv") for _ in range(n)]
             ops.append({"op": "setattr", "src": src, "field": fname, "texts": texts})
         elif op == "get":
@@ -295,6 +303,9 @@ class World:
         rows = iosim.table_to_rows(v, fmt)
         out = {"len": n if not raised(n) else repr(n),
                "rows": rows if not raised(rows) else "Raised:" + rows.type}
+        # the whole table as rows (tolist() materialises it through another route than the access to single fields)
+        tl = call(lambda: plain([tuple_to_list(e) for e in v.tolist()]))
+        out["tolist"] = tl if not raised(tl) else "Raised:" + tl.type
         if with_write:
             w = self.write_bytes(v)
             out["write"] = core.esc(w) if not raised(w) else "Raised:" + w.type
